@@ -6,9 +6,10 @@ import random
 import time
 from verif.native.common import load_hint, write_replay, finish
 from verif.native.server_prelude import PRELUDE
+from verif.native.isolation import ISOLATED
 
-BODY = PRELUDE + '''
-import re, tempfile, shutil
+BODY = PRELUDE + ISOLATED + '''
+import os, sys, time, re, tempfile, shutil
 
 def make_bptk2():
     m = Model(starttime=1.0, stoptime=12.0, dt=1.0, name="m")
@@ -17,7 +18,8 @@ def make_bptk2():
     b = bptk()
     b.register_model(m)
     b.register_scenario_manager({"sm": {"model": m}})
-    b.register_scenarios(scenario_manager="sm", scenarios={"base": {"constants": {"c": 1.0}}, "alt": {"constants": {"c": 3.0, "g": 0.5}}})
+    # "plain" is registered WITHOUT constants / points (the default a user gets from register_model)
+    b.register_scenarios(scenario_manager="sm", scenarios={"base": {"constants": {"c": 1.0}}, "alt": {"constants": {"c": 3.0, "g": 0.5}}, "plain": {}})
     return b
 
 def norm(data, ids):
@@ -108,9 +110,9 @@ def execute(cfg, timeouts, schedule, only=None):
 
 def run(case):
     cfg, timeouts, schedule = case
-    joint = execute(cfg, timeouts, schedule)
+    joint = isolated(execute, cfg, timeouts, schedule)
     for i in range(len(timeouts)):
-        solo = execute(cfg, timeouts, schedule, only=i)[i]
+        solo = isolated(execute, cfg, timeouts, schedule, only=i)[i]
         if solo != joint[i]:
             for a, b in zip(joint[i], solo):
                 if a != b:
@@ -121,12 +123,12 @@ def run(case):
 '''
 exec(BODY)
 
-SETTINGS = [None, None, ('base', 'c', 5.0), ('base', 'c', 0.25), ('base', 'g', 7.0), ('alt', 'c', 11.0), ('alt', 'g', 4.0)]
+SETTINGS = [None, None, ('base', 'c', 5.0), ('base', 'c', 0.25), ('base', 'g', 7.0), ('alt', 'c', 11.0), ('alt', 'g', 4.0), ('plain', 'c', 9.0), ('plain', 'g', 6.0)]
 
 
 def gen_script(rnd):
     """request script of one instance"""
-    ops = [('begin', rnd.choice([('base',), ('base', 'alt'), ('alt',)]), rnd.choice([('s',), ('s', 'c'), ('s', 'f', 'g')]),
+    ops = [('begin', rnd.choice([('base',), ('base', 'alt'), ('alt',), ('plain',), ('plain', 'base'), ('plain',)]), rnd.choice([('s',), ('s', 'c'), ('s', 'f', 'g')]),
             rnd.choice(SETTINGS))]
     for _ in range(rnd.randint(2, 7)):
         r = rnd.random()
@@ -181,14 +183,37 @@ def gen(rnd):
     return (cfg, timeouts, schedule)
 
 
+def scripted_cases():
+    """fixed histories run before the random ones: instance 1 begins a session over a scenario, instance 0 begins a session
+    over the scenario of the same name WITH session settings, then both step -- in every order of the two begin requests,
+    for a scenario registered with and without constants"""
+    out = []
+    for scen in ('plain', 'base', 'alt'):
+        for setting in ((scen, 'c', 9.0), (scen, 'g', 6.0)):
+            for order in ((1, 0), (0, 1)):
+                for adapter in (False, True):
+                    begin = {0: ('begin', (scen,), ('s', 'f', 'g'), setting), 1: ('begin', (scen,), ('s', 'f', 'g'), None)}
+                    schedule = [(order[0], begin[order[0]]), (order[1], begin[order[1]])]
+                    for _ in range(3):
+                        schedule += [(1, ('step', None)), (0, ('step', None))]
+                    schedule += [(1, ('results', False)), (0, ('results', False)), (1, ('end',)), (1, begin[1]), (1, ('step', None)),
+                                 (1, ('results', False))]
+                    out.append((dict(adapter=adapter, compress=False, batch=False), [{'minutes': 5}, {'minutes': 5}], schedule))
+    return out
+
+
+SCRIPTED = scripted_cases()
+
+
 def main():
     hint = load_hint()
     rnd = random.Random(hint.get('seed', 0))
     t_end = time.time() + hint.get('budget_s', 20)
     n = 0
     failures = []
-    while time.time() < t_end:
-        case = gen(rnd)
+    scripted = list(SCRIPTED)
+    while scripted or time.time() < t_end:
+        case = scripted.pop(0) if scripted else gen(rnd)
         n += 1
         try:
             bad = run(case)
